@@ -194,6 +194,7 @@ func concRun(c *hx.Ctx, n, g, steps int) {
 				}
 				st := gstep{o: o, name: p.names[k%len(p.names)], filter: p.filters[k%len(p.filters)]}
 				st.o.topic = o.topic
+				tick("queries after " + o.text())
 				st.get = gt + "\x00" + vals(t.Get(gt))
 				st.mat = sortedVals(ownOnly(t.Match(st.name), lo, hi))
 				st.srch = sortedVals(ownOnly(t.Search(st.filter), lo, hi))
@@ -243,7 +244,7 @@ func concRun(c *hx.Ctx, n, g, steps int) {
 	for _, tp := range all {
 		fin = append(fin, hexs(tp)+"="+vals(t.Get(tp)))
 	}
-	c.Emit("final %d %s all=%s cnt=%d shape=%s", n, strings.Join(fin, " "), sortedVals(t.All()), t.Count(), shape(t.String()))
+	c.Emit("final %d %s all=%s cnt=%d shape=%s", n, strings.Join(fin, " "), sortedVals(t.All()), t.Count(), shape(t.String(), ident))
 	c.Stat("concurrent_runs", 1)
 }
 
@@ -255,6 +256,9 @@ func runC05Conc(c *hx.Ctx) {
 	}
 	if c.Replay != "" {
 		runs = 10
+	}
+	if raceBuild && !c.Thorough() {
+		runs, steps = 10, 100 // the race detector needs every method to run concurrently once, not volume
 	}
 	for n := 0; n < runs; n++ {
 		g := 2 + c.Rng.Intn(15)
@@ -275,9 +279,12 @@ func overlapRuns(c *hx.Ctx) {
 	rounds := 40
 	if c.Thorough() {
 		rounds = 400
+	} else if raceBuild {
+		rounds = 8
 	}
 	bad := ""
 	for r := 0; r < rounds && bad == ""; r++ {
+		tick("overlap round")
 		t := topic.NewStandardTree()
 		t.Set("k/x", 0)
 		var wg sync.WaitGroup
